@@ -37,7 +37,10 @@ CHECKS = {
          "the whole model (all subgraphs, inlined blocks), node names unique, one import per domain - statements about the model's "
          "build incl. proved-sound validators; BY CONSTRUCTION (no validator, every fuel/nesting): the naming tables stay injective "
          "through compile and reserved names never name a Var (ScopeFacts via the generic CompilePres.compile_inv), the GraphProto of "
-         "every scope is in SSA form at top level (SsaFacts). CORRESPONDENCE: EXACT rendering (names, order, types, imports, functions) of the real "
+         "every scope is in SSA form at top level (SsaFacts), and EVERY non-empty value name of the whole model - all nested graphs and the "
+         "internals of every inlined block - is defined once (GlobalFacts/GlobalInline/InlineSeq; premises decidable and evaluated on every "
+         "program that builds: no source node twice in the unfolded ownership map, every inlined model defines each of its names once). "
+         "CORRESPONDENCE: EXACT rendering (names, order, types, imports, functions) of the real "
          "ModelProto vs the model on programs with inlined models, functions, custom operators, benign and adversarial user names "
          "(harvested from a previous build), both drop_unused_inputs values. ORACLE: full ONNX checker + strict inference + "
          "onnxruntime load + independent whole-model walker on every returned model.",
@@ -142,10 +145,13 @@ CHECKS = {
          "output types; every emitted inlined block is the foreign graph under a functional renaming injective on internal names "
          "(validated-sound), disjoint from all other names (C02); BY CONSTRUCTION (InlineDefs/InlineInj, nested induction over the "
          "foreign graph): every definition of the block comes from a definition of the model through the renaming relation, which is a "
-         "function of the inner name and injective; block internals are reserved names or outputs of the Inline node. CORRESPONDENCE: binding of random calling forms vs bind_args; exact "
+         "function of the inner name and injective; block internals are reserved names or outputs of the Inline node; the block's "
+         "definitions are the renamed definitions of the model IN ORDER, so one definition per name is preserved (InlineSeq). "
+         "CORRESPONDENCE: binding of random calling forms vs bind_args; exact "
          "rendering of models built around spox-built and hand-built corner models (initializers, sparse, defaults, pass-through, "
          "subgraphs capturing outer values, empty optionals, custom domain, hostile names), once/twice/inside If/chained. ORACLE: "
-         "onnxruntime on m vs on the model built around inline(m); bytes of m unchanged.",
+         "onnxruntime on m vs on the model built around inline(m); bytes of m unchanged; type boundary: arguments of another element "
+         "type / rank / static extent (0 included) raise TypeError, declared output types are carried (also with an untyped argument).",
     note=TB + "Assumed: onnxruntime(m) is the meaning of m; onnx.version_converter preserves meaning (blocks that are converted are "
          "judged by the semantic oracle only). Semantic invariance under the renaming is argued from the alpha check, not proved end-to-end.",
     technique="Coq proof (binding function, renaming validator) + exact emission correspondence + ORT(m) vs ORT(build(inline m)) oracle",
